@@ -11,6 +11,7 @@
 """
 import collections
 import copy
+import tempfile
 import hashlib
 import json
 import os
@@ -19,6 +20,7 @@ import time
 
 from . import pipeline as pl
 from . import tlc
+from . import instances
 
 ROOT = os.path.dirname(os.path.dirname(os.path.abspath(__file__)))
 NCPU = min(16, os.cpu_count() or 1)
@@ -187,18 +189,63 @@ def negative_controls(pid, traces, verdicts, rng, want=3):
 
 
 # ---------------------------------------------------------------------------
-def run_mc(cfg, tier):
-    """Design-level model checking of the algorithm-layer module (if present)."""
+def run_mc(cfg, tier, seed):
+    """Design-level model checking of the algorithm-layer module + spec->code replay
+    of the histories it enumerates.  Returns (mc result, replayed traces, verdicts)."""
     mc = cfg.get("mc")
     if not mc:
-        return None
+        return None, [], []
     module, qcfg, tcfg = mc
     cfgfile = qcfg if tier == "quick" else tcfg
-    if not os.path.exists(os.path.join(tlc.SPEC_DIR, module + ".tla")) or \
-            not os.path.exists(os.path.join(tlc.SPEC_DIR, cfgfile)):
-        return None
-    r = tlc.run_tlc(module, cfg=cfgfile, workers=NCPU, timeout=3000)
-    return r
+    fd, ipath = tempfile.mkstemp(prefix="mxv_inst_", suffix=".json")
+    os.close(fd)
+    try:
+        inst = instances.write_instance(module, tier, ipath, seed)
+        env = {"MC_INSTANCE": ipath}
+        r = tlc.run_tlc(module, cfg=cfgfile, env=env, workers=NCPU, timeout=3000)
+        # spec -> code: every history of MaxOps operations (BFS, exhaustive)
+        mbtcfg = "MBT_%s.cfg" % module
+        rb = tlc.run_tlc(module, cfg=mbtcfg, env=env, workers=NCPU, timeout=3000)
+        hists = [json.loads(tlc.tla_to_py(t)[1]) for t in tlc._match_tuples(rb["out"], "MBT")]
+        if tier == "thorough":
+            # plus deeper random behaviours
+            rs = tlc.run_tlc(module, cfg="MBT_%s_sim.cfg" % module, env=env, workers=1,
+                             timeout=1200, extra=["-depth", "400", "-seed", str(seed)],
+                             simulate="num=1500")
+            hists += [json.loads(tlc.tla_to_py(t)[1]) for t in tlc._match_tuples(rs["out"], "MBT")]
+        seen, jobs = set(), []
+        for h in hists:
+            key = json.dumps(h, sort_keys=True)
+            if key in seen:
+                continue
+            seen.add(key)
+            defs = inst["inits"][h[0]["id"] - 1]
+            ops = h[1:] + sweep_ops(defs)
+            jobs.append((defs, ops, {"deep": True}))
+        limit = cfg.get("mbt_limit", {}).get(tier)
+        if limit and len(jobs) > limit:
+            random.Random(seed).shuffle(jobs)
+            jobs = jobs[:limit]
+        traces = pl.produce(pl.replay_ops_trace, jobs, procs=NCPU)
+        verdicts, stats = pl.judge(traces, batch_size=max(20, len(traces) // (NCPU * 2) + 1),
+                                   procs=NCPU) if traces else ([], {})
+        r["mbt"] = {"histories_enumerated": len(hists), "replayed": len(traces),
+                    "bfs_states": rb.get("states"), "judge": stats,
+                    "instance": {"inits": len(inst["inits"]), "ops": len(inst["ops"])}}
+        return r, traces, verdicts
+    finally:
+        os.unlink(ipath)
+
+
+def sweep_ops(defs):
+    """Query every element of a small instance (keys 0 and 1) after a replayed history."""
+    out = []
+    for p, cs in defs["cells"]:
+        for c, rec in cs.items():
+            nps = len(defs["flib"][rec["f"]]["ps"])
+            for k in ((0,), (1,)) if nps == 1 else ((),) if nps == 0 else ((0, 0), (1, 0)):
+                out.append({"op": "call", "c": [p, [], c], "args": list(k), "sp": "pos"})
+    return out
 
 
 def run_eval(pid, tier, seed):
@@ -215,6 +262,10 @@ def run_eval(pid, tier, seed):
     traces = pl.produce(pl.make_eval_trace, jobs, procs=NCPU)
     t_prod = time.time() - t0
     verdicts, stats = pl.judge(traces, batch_size=max(4, min(40, n // NCPU + 1)), procs=NCPU)
+    n_random = len(traces)
+    mc, mtraces, mverdicts = run_mc(cfg, tier, seed)
+    traces = traces + mtraces
+    verdicts = verdicts + mverdicts
     res = {"level": cfg["level"], "violations": [], "assumptions": list(EVAL_COMMON_ASSUME)}
     # machinery sanity: every trace consumed to its end
     for tr, v in zip(traces, verdicts):
@@ -231,11 +282,10 @@ def run_eval(pid, tier, seed):
             for lab, l in sorted(mine, key=lambda x: x[1])[:3]:
                 res["violations"].append({"label": lab, "line": l, "replay": path})
     # dedupe: one report per (label, replay)
-    nc = negative_controls(pid, traces, verdicts, rng)
+    nc = negative_controls(pid, traces[:n_random], verdicts[:n_random], rng)
     if nc["attempted"] == 0 or nc["rejected"] != nc["attempted"]:
         if not res["violations"]:
             res["machinery_failure"] = "negative control not rejected: %r" % (nc,)
-    mc = run_mc(cfg, tier)
     hashes = set()
     nontrivial = set()
     opk = collections.Counter()
@@ -249,6 +299,7 @@ def run_eval(pid, tier, seed):
     cov = {
         "states": stats["states"], "transitions": stats["transitions"],
         "traces_validated_against_impl": len(traces),
+        "random_histories": n_random, "model_enumerated_histories_replayed": len(mtraces),
         "evaluations": sum(len(t["ev"]) for t in traces),
         "distinct_nontrivial": len(nontrivial),
         "rule": "one case = (generated program, operation history); distinct by SHA-1 of "
@@ -262,7 +313,7 @@ def run_eval(pid, tier, seed):
         "exhaustive": False,
     }
     if mc is not None:
-        cov["design_model_check"] = {k: mc.get(k) for k in ("states", "transitions", "depth", "wall_s", "ok")}
+        cov["design_model_check"] = {k: mc.get(k) for k in ("states", "transitions", "depth", "wall_s", "ok", "mbt")}
         if mc.get("states"):
             cov["states"] += mc["states"]
             cov["transitions"] += mc.get("transitions") or 0
